@@ -16,7 +16,7 @@ META = dict(
          "down also kills its connections) / close the current connection from the server side; the clock advance; and during "
          "the call connect_ex may answer EINPROGRESS, ECONNREFUSED, another completion errno (ECONNRESET, ECONNABORTED, ETIMEDOUT, ...) or "
          "success out of turn and an idle recv may answer "
-         "ECONNRESET. All schedules with <= 3 deviations (H=6, quick) / <= 4 (H=9, thorough) are run; then the environment "
+         "ECONNRESET. All schedules with <= 3 deviations (H=6, quick) / <= 4 (H=8, thorough) are run; then the environment "
          "stays good for 6 more calls (server listening, natural answers; immediate: clock +T per call; realistic: +T once so "
          "the timeout has elapsed, then +T/4 per call). Oracle: a reconnectable subject is connected to a live socket - "
          "connected, not cut off, .ca/.ha equal to the double's getsockname()/getpeername(), peer open - from the 4th good "
@@ -48,7 +48,7 @@ TLS_EXTRA = (("PatronTls", True, True),)
 # handler=Client(timeout=T, reconnectable=True) (the stack's own .timeout stays None); reconnectable, server up
 STACK_EXTRA = (("TcpClientStackDefaultTimeout", True, True), ("TcpClientStackOwnHandler", True, True))
 OWNSTORE_EXTRA = (("PatronOwnStore", True, True), ("PatronTlsOwnStore", True, True))     # https Patron over ClientTls, reconnectable
-BOUNDS = dict(quick=dict(dev=3, H=6), thorough=dict(dev=4, H=9))
+BOUNDS = dict(quick=dict(dev=3, H=6), thorough=dict(dev=4, H=8))
 CLOSING = 6
 WINDOW = 4
 # variant "steady": realistic connects, and the good phase has NO clock jump: +T/4 per call only, so a
@@ -90,6 +90,7 @@ class Policy:
         self.ch = ch
         self.realistic = realistic
         self.frozen = False
+        self.group_used = False
 
     def decide(self, sock, op, cands):
         if len(cands) == 1:
@@ -111,7 +112,9 @@ class Policy:
                 k = self.ch.choose(len(rest) + 1, "%s.%s" % (sock.name, op), 0, 1)
                 if k < len(rest):
                     return rest[k]
-                if core.TIER == "thorough":         # which errno: a second, free choice
+                if core.TIER == "thorough" and not self.group_used:
+                    # which errno: a second, free choice - for the first completion error of an execution
+                    self.group_used = True
                     return group[self.ch.choose(len(group), "%s.%s errno" % (sock.name, op), 0, 0)]
                 # quick: a representative, rotating with the position in the schedule (all errnos take the same branch
                 # in ioflo: not 0/EISCONN, not EINVAL/ECONNREFUSED)
@@ -561,7 +564,8 @@ def run():
         rule="{Client, Patron, TcpClientStack, ClientTls} (+ https Patron, reconnectable) x {reconnectable, not} x {server initially up, down}: every schedule of %d "
              "service calls with <= %d deviations among env event {none, toggle server, server closes connection}, clock "
              "advance {T, T/2, 0}, connect_ex {natural, EINPROGRESS, ECONNREFUSED, another completion errno (one of ECONNRESET, ECONNABORTED, "
-             "ETIMEDOUT, ENETUNREACH, EHOSTUNREACH: thorough each, quick a representative rotating with the position)}, idle recv {would-block, ECONNRESET}; "
+             "ETIMEDOUT, ENETUNREACH, EHOSTUNREACH: a representative rotating with the position; in thorough the first "
+             "one of an execution is each of the five)}, idle recv {would-block, ECONNRESET}; "
              "followed by %d good calls; plus PatronSSE: a reconnectable Patron on a text/event-stream with retry: 500, every "
              "sequence of %d cuts x {stream followed 2, 0, 6 calls first} x {server close, ECONNRESET}"
              % (b["H"], b["dev"], CLOSING, SSE_CUTS[core.TIER]),
